@@ -432,6 +432,7 @@ func famJSON(dir string, seed int64, tier string) {
 	}
 	w.flush()
 	jsonEmbedded(rep)
+	jsonEmbeddedPtr(rep)
 	rep.write(dir)
 }
 
